@@ -544,7 +544,7 @@ def judge(env, rig, items, exp, case, chunks, section):
     # that is reported once under the elective-option key instead of its secondary symptoms.
     early = False
     if exp.stop is not None and exp.elective and (t.closing or aborts) and rig.escape is None:
-        if (len(got) < nd and got == exp.disp[: len(got)]) or pongs[: len(exp.pongs)] != exp.pongs:
+        if (len(got) < nd and got == exp.disp[: len(got)]) or len(pongs) < len(exp.pongs):
             early = True
             rep.monitor("elective_sig_option_ignored")
             viol("sig-elective-option/aborted" + ("/non-utf8-value" if exp.elective == "non-utf8" else ""), "a signalling message carrying an unknown ELECTIVE option made the endpoint abort/close instead of ignoring the option (messages that followed it were not processed)")
